@@ -33,57 +33,91 @@ def place_locals(p):
     return ls
 
 
+def _fields(p):
+    return [e[2] for e in p[1] if isinstance(e, list) and e[0] in (".",)] if p[1] else []
+
+
+def _compatible(read_fields, write_fields):
+    """could a write to base.<write_fields> be seen by a read of base.<read_fields>?"""
+    n = min(len(read_fields), len(write_fields))
+    return read_fields[:n] == write_fields[:n]
+
+
 def backward_slice(fn, roots, through_calls=True):
-    """Flow-insensitive backward data slice.  Returns (locals, leaves) where leaves is a list of
-    ('param', n) | ('call', bb, term) | ('place', place, bb) | ('const', op)"""
+    """Flow-insensitive, field-sensitive backward data slice.  Returns (locals, leaves) where leaves is a
+    list of ('param', n) | ('call', bb, term) | ('place', place, bb) | ('const', op).
+    A read of `base.f` only follows partial definitions of `base` that write `base.f` (or a prefix /
+    extension of it); whole-local definitions are always followed."""
     seen = set()
+    seen_locals = set()
     leaves = []
-    st = list(roots)
+    st = [(r, None) for r in roots if r is not None]
+
+    def push_place(p):
+        f = _fields(p)
+        st.append((p[0], tuple(f) if p[1] else None))
+        for e in p[1]:
+            if isinstance(e, list) and e[0] == "idx":
+                st.append((e[1], None))
+
     while st:
-        l = st.pop()
-        if l in seen:
+        l, fl = st.pop()
+        key = (l, fl)
+        if key in seen:
             continue
-        seen.add(l)
-        if 1 <= l <= fn.argc:
+        seen.add(key)
+        first_visit = l not in seen_locals
+        seen_locals.add(l)
+        if first_visit and 1 <= l <= fn.argc:
             leaves.append(("param", l))
-        for d in fn.defs.get(l, []):
-            if d[0] == "call":
-                t = d[2]
-                leaves.append(("call", d[1], t))
-                if through_calls:
-                    for a in t["args"]:
-                        p = op_place(a)
-                        if p is not None:
-                            st.extend(place_locals(p))
-                            if p[1]:
-                                leaves.append(("place", p, d[1]))
-            else:
-                s = d[3]
-                rv = s["rv"]
-                for o in rv_operands(rv):
-                    if o["k"] == "const":
-                        leaves.append(("const", o))
-                for p in rv_places(rv):
-                    st.extend(place_locals(p))
-                    if p[1]:
-                        leaves.append(("place", p, d[1]))
+        if first_visit:
+            for d in fn.defs.get(l, []):
+                if d[0] == "call":
+                    t = d[2]
+                    leaves.append(("call", d[1], t))
+                    if through_calls:
+                        for a in t["args"]:
+                            p = op_place(a)
+                            if p is not None:
+                                push_place(p)
+                                if p[1]:
+                                    leaves.append(("place", p, d[1]))
+                else:
+                    s = d[3]
+                    rv = s["rv"]
+                    for o in rv_operands(rv):
+                        if o["k"] == "const":
+                            leaves.append(("const", o))
+                    for p in rv_places(rv):
+                        push_place(p)
+                        if p[1]:
+                            leaves.append(("place", p, d[1]))
         for (b, i, s) in fn.partial_defs.get(l, []):
+            lhs = s["dest"] if i == "term" else s["lhs"]
+            wf = _fields(lhs)
+            if fl is not None and not _compatible(list(fl), wf):
+                continue
+            pk = (l, "pd", b, i if i == "term" else id(s))
+            if pk in seen:
+                continue
+            seen.add(pk)
             if i == "term":
                 leaves.append(("call", b, s))
-                for a in s["args"]:
-                    p = op_place(a)
-                    if p is not None:
-                        st.extend(place_locals(p))
+                if through_calls:
+                    for a in s["args"]:
+                        p = op_place(a)
+                        if p is not None:
+                            push_place(p)
             else:
                 rv = s["rv"]
                 for o in rv_operands(rv):
                     if o["k"] == "const":
                         leaves.append(("const", o))
                 for p in rv_places(rv):
-                    st.extend(place_locals(p))
+                    push_place(p)
                     if p[1]:
                         leaves.append(("place", p, b))
-    return seen, leaves
+    return seen_locals, leaves
 
 
 def forward_derived(fn, start_locals, through=("use", "cast", "ref", "rawptr"), deref_ok=True):
